@@ -11,11 +11,12 @@ struct Fault { std::string kind, what; };   // what: element / attribute touched
 static std::vector<std::pair<size_t, size_t>> lines_of(const std::string &s) { std::vector<std::pair<size_t, size_t>> v; size_t p = 0; while (p < s.size()) { size_t e = s.find('\n', p); if (e == std::string::npos) e = s.size(); else e++; v.push_back({p, e - p}); p = e; } return v; }
 static std::string elem_of(const std::string &line) { size_t lt = line.find('<'); if (lt == std::string::npos) return "?"; size_t e = line.find_first_of(" >/\n", lt + 1); std::string n = line.substr(lt + 1, e == std::string::npos ? std::string::npos : e - lt - 1); if (n.empty() && lt + 1 < line.size() && line[lt + 1] == '/') { e = line.find_first_of(" >\n", lt + 2); n = "/" + line.substr(lt + 2, e == std::string::npos ? std::string::npos : e - lt - 2); } return n; }
 
+static const int NKINDS = 14;
 static Fault corrupt(std::string &doc, Rng &g, int kindsel) {
   Fault f; if (doc.empty()) { f.kind = "empty"; return f; }
   size_t n = doc.size(); size_t pos = (size_t)g.below(n);
-  switch (kindsel % 12) {
-  case 0: f.kind = "truncate"; doc.resize(pos); break;                                                        // EOF at an arbitrary byte: torn write
+  switch (kindsel % NKINDS) {
+  case 0: f.kind = "truncate"; if (g.chance(1, 4)) pos = (size_t)g.below(std::min<size_t>(n, 400)); doc.resize(pos); break;                                                        // EOF at an arbitrary byte: torn write
   case 1: f.kind = "flip"; doc[pos] = (char)(doc[pos] ^ (1 << g.below(8))); if (!doc[pos]) doc[pos] = ' '; break;   // flipped stored bit
   case 2: { f.kind = "zero_block"; size_t l = 1 + (size_t)g.below(64); for (size_t i = pos; i < n && i < pos + l; i++) doc[i] = ' '; break; }
   case 3: { f.kind = "dup_block"; size_t l = 1 + (size_t)g.below(200); doc.insert(pos, doc.substr(pos, std::min(l, n - pos))); break; }
@@ -25,13 +26,23 @@ static Fault corrupt(std::string &doc, Rng &g, int kindsel) {
     std::vector<size_t> eqs; for (size_t i = 0; i + 1 < line.size(); i++) if (line[i] == '=' && line[i + 1] == '"') eqs.push_back(i);
     if (eqs.empty()) { f.kind = "attr"; f.what = "none"; break; }
     size_t eq = eqs[g.below(eqs.size())]; size_t ns = line.find_last_of(" <", eq); std::string an = line.substr(ns + 1, eq - ns - 1); size_t ve = line.find('"', eq + 2); if (ve == std::string::npos) { f.kind = "attr"; f.what = "none"; break; }
-    static const char *vals[] = {"", "0", "-1", "4294967295", "4294967296", "18446744073709551615", "99999999999999999999999", "0x", "0xffffffff,0xffffffff,0xffffffff", "0x00000001", "0xf...f", "abc", "1e400", "2", "NaN", "&amp;", "&bogus;", "\t", "255", "65536", "Machine", "PU", "Group", "NUMANode", "Misc", "Bridge", "L9Cache", "0-", "1000000"};
+    static const char *vals[] = {"", "0", "-1", "4294967295", "4294967296", "18446744073709551615", "99999999999999999999999", "0x", "0xffffffff,0xffffffff,0xffffffff", "0x00000001", "0xf...f", "abc", "1e400", "2", "NaN", "&amp;", "&bogus;", "\t", "255", "65536", "Machine", "PU", "Group", "NUMANode", "Misc", "Bridge", "L9Cache", "0-", "1000000", "Capacity", "Locality", "Bandwidth", "Latency", "1", "3", "7", "L2Cache", "MemCache", "OSDevice", "PCIDevice", "18446744073709551000"};
     std::string nv = vals[g.below(sizeof vals / sizeof *vals)]; if (g.chance(1, 6)) { nv = line.substr(eq + 2, ve - eq - 2); if (!nv.empty()) nv[g.below(nv.size())] = (char)('0' + g.below(10)); }
     doc.replace(ln.first + eq + 2, ve - eq - 2, nv); f.kind = "attr"; f.what = elem_of(line) + "." + an; break; }
   case 8: { auto ls = lines_of(doc); auto &ln = ls[g.below(ls.size())]; f.kind = "drop_line"; f.what = elem_of(doc.substr(ln.first, ln.second)); doc.erase(ln.first, ln.second); break; }
   case 9: { auto ls = lines_of(doc); auto &ln = ls[g.below(ls.size())]; std::string line = doc.substr(ln.first, ln.second); f.kind = "dup_line"; f.what = elem_of(line); doc.insert(ln.first, line); break; }
   case 10: { auto ls = lines_of(doc); auto &a = ls[g.below(ls.size())], &b = ls[g.below(ls.size())]; if (a.first == b.first) { f.kind = "move_line"; f.what = "same"; break; } std::string line = doc.substr(a.first, a.second); f.kind = "move_line"; f.what = elem_of(line); if (a.first < b.first) { doc.insert(b.first, line); doc.erase(a.first, a.second); } else { doc.erase(a.first, a.second); doc.insert(b.first, line); } break; }
   case 11: { size_t v = doc.find("version=\""); f.kind = "version"; if (v != std::string::npos && v < 400) { size_t e = doc.find('"', v + 9); static const char *vs[] = {"1.0", "2.0", "2.1", "3.0", "3.1", "4.0", "0.9", "", "x", "2", "99.99"}; if (e != std::string::npos) doc.replace(v + 9, e - v - 9, vs[g.below(11)]); } break; }
+  case 12: case 13: {   // an attribute given twice: a second occurrence with another value is appended to the element's attribute list
+    auto ls = lines_of(doc); auto &ln = ls[g.below(ls.size())]; std::string line = doc.substr(ln.first, ln.second); f.kind = "dup_attr"; f.what = "none";
+    std::vector<size_t> eqs; for (size_t i = 0; i + 1 < line.size(); i++) if (line[i] == '=' && line[i + 1] == '"') eqs.push_back(i);
+    size_t close = line.find("/>"); if (close == std::string::npos) close = line.rfind('>'); if (eqs.empty() || close == std::string::npos || line.compare(0, 2, "<?") == 0 || line.find("<!") != std::string::npos) break;
+    size_t eq = eqs[g.below(eqs.size())]; size_t ns = line.find_last_of(" <", eq); std::string an = line.substr(ns + 1, eq - ns - 1);
+    // the other value: the same attribute somewhere else in the document, or a boundary value
+    std::string nv; std::vector<std::string> others; std::string key = " " + an + "=\""; for (size_t q = doc.find(key); q != std::string::npos && others.size() < 64; q = doc.find(key, q + 1)) { size_t b = q + key.size(), e = doc.find('"', b); if (e != std::string::npos) others.push_back(doc.substr(b, e - b)); }
+    static const char *vals2[] = {"", "0", "-1", "NUMANode", "PU", "Machine", "Group", "L2Cache", "MemCache", "Misc", "Bridge", "PCIDevice", "OSDevice", "0x00000001", "0xf...f", "18446744073709551615", "2", "abc"};
+    nv = (!others.empty() && g.chance(1, 2)) ? others[g.below(others.size())] : vals2[g.below(sizeof vals2 / sizeof *vals2)];
+    doc.insert(ln.first + close, " " + an + "=\"" + nv + "\""); f.what = elem_of(line) + "." + an; break; }
   }
   return f;
 }
@@ -73,8 +84,9 @@ bool ops_xmlfault(World &w, const Op &o) {
     if (src <= 1) { char *xb = nullptr; int xl = 0; if (hwloc_topology_export_xmlbuffer(S.t, &xb, &xl, src == 1 ? HWLOC_TOPOLOGY_EXPORT_XML_FLAG_V2 : 0) == 0 && xb) { doc.assign(xb, xl > 0 ? (size_t)xl - 1 : 0); hwloc_free_xmlbuffer(S.t, xb); } srcname = src ? "export-v2" : "export-v3"; }
     else { std::vector<std::string> c = corpus_xml(); if (c.empty()) return true; srcname = c[o.u("file") % c.size()]; std::string path = repo_path() + "/tests/hwloc/xml/" + srcname; FILE *fp = fopen(path.c_str(), "rb"); if (fp) { char tmp[65536]; size_t n; while ((n = fread(tmp, 1, sizeof tmp, fp)) > 0) doc.append(tmp, n); fclose(fp); } }
     if (doc.empty()) { r.ev("xml_fault: no document"); return true; }
+    const std::string orig = doc;
     Rng g(o.u("fs")); int nf = 1 + (int)(o.u("nf") % 3); Fault last; std::string desc;
-    for (int i = 0; i < nf; i++) { Fault f = corrupt(doc, g, (int)g.below(12)); r.count("fault.xml_" + f.kind); desc += f.kind + (f.what.empty() ? "" : ":" + f.what) + " "; if (i == 0 || !f.what.empty()) last = f; }
+    for (int i = 0; i < nf; i++) { Fault f = corrupt(doc, g, (int)g.below(NKINDS)); r.count("fault.xml_" + f.kind); desc += f.kind + (f.what.empty() ? "" : ":" + f.what) + " "; if (i == 0 || !f.what.empty()) last = f; }
     if (nf > 1) { last.kind = "multi:" + last.kind; }
     bool tofile = o.u("via") & 1; int szmode = (int)(o.u("sz") % 4);
     hwloc_topology_t t = nullptr; hwloc_topology_init(&t);
@@ -97,7 +109,8 @@ bool ops_xmlfault(World &w, const Op &o) {
     else {
       r.count("probe.xmlfault_load_failed_cleanly");
       // the failed topology can be destroyed, or configured and loaded again
-      if (o.u("again") & 1) { int ra = hwloc_topology_set_synthetic(t, "pack:2 numa:1 core:2 pu:2"); int rb = ra == 0 ? hwloc_topology_load(t) : -1; if (ra || rb) { hwloc_topology_destroy(t); viol0(w, own, "xmlfault.reload_after_failure", "after a failed XML load the same topology could not be configured and loaded again (set %d load %d)", ra, rb); } Dump d; take_dump(t, d, DUMP_FULL); std::string e = wf_check(t, d); if (!e.empty()) viol(w, own, e.substr(0, e.find(": ")), "topology loaded after a failed XML load: %s", e.c_str()); r.count("probe.xmlfault_reconfigured_after_failure"); }
+      if (o.u("again") & 1) { bool undamaged = ((o.u("fs") >> 17) & 1) != 0;   // reload: a synthetic description, or the undamaged document
+        int ra = undamaged ? hwloc_topology_set_xmlbuffer(t, orig.c_str(), (int)orig.size() + 1) : hwloc_topology_set_synthetic(t, "pack:2 numa:1 core:2 pu:2"); int rb = ra == 0 ? hwloc_topology_load(t) : -1; r.count(undamaged ? "probe.xmlfault_reload_undamaged_document" : "probe.xmlfault_reload_synthetic"); if (ra || rb) { hwloc_topology_destroy(t); viol0(w, own, "xmlfault.reload_after_failure", "after a failed XML load the same topology could not be configured and loaded again (set %d load %d)", ra, rb); } Dump d; take_dump(t, d, DUMP_FULL); std::string e = wf_check(t, d); if (!e.empty()) viol(w, own, e.substr(0, e.find(": ")), "topology loaded after a failed XML load: %s", e.c_str()); r.count("probe.xmlfault_reconfigured_after_failure"); }
       hwloc_topology_destroy(t);
     }
     if (!path.empty()) unlink(path.c_str());
@@ -110,7 +123,7 @@ bool ops_xmlfault(World &w, const Op &o) {
     hwloc_obj_t ra = hwloc_get_root_obj(A), rb = hwloc_get_root_obj(B); free(ra->name); ra->name = strdup("a"); free(rb->name); rb->name = strdup("b&<"); hwloc_obj_add_info(ra, "K", "1"); hwloc_obj_add_info(rb, "K", "2");
     hwloc_topology_diff_t d = nullptr; std::string doc; if (hwloc_topology_diff_build(A, B, 0, &d) == 0 && d) { char *xb = nullptr; int xl = 0; if (hwloc_topology_diff_export_xmlbuffer(d, "ref", &xb, &xl) == 0 && xb) { doc.assign(xb, xl > 0 ? (size_t)xl - 1 : 0); free(xb); } }
     if (d) hwloc_topology_diff_destroy(d); hwloc_topology_destroy(B);
-    if (!doc.empty()) { Rng g(o.u("fs")); int nf = 1 + (int)(o.u("nf") % 2); std::string desc; for (int i = 0; i < nf; i++) { Fault f = corrupt(doc, g, (int)g.below(12)); r.count("fault.diffxml_" + f.kind); desc += f.kind + " "; }
+    if (!doc.empty()) { Rng g(o.u("fs")); int nf = 1 + (int)(o.u("nf") % 2); std::string desc; for (int i = 0; i < nf; i++) { Fault f = corrupt(doc, g, (int)g.below(NKINDS)); r.count("fault.diffxml_" + f.kind); desc += f.kind + " "; }
       size_t len = doc.size(); char *heap = (char *)malloc(len + 1); memcpy(heap, doc.data(), len); heap[len] = 0; hwloc_topology_diff_t d2 = nullptr; char *ref = nullptr;
       int rc = hwloc_topology_diff_load_xmlbuffer(heap, (int)len + 1, &d2, &ref); free(heap);
       r.ev("diffxml_fault r%d faults=[%s] -> %d", si, desc.c_str(), rc);
